@@ -4,6 +4,7 @@ import (
 	"encoding/json"
 	"flag"
 	"fmt"
+	"go/types"
 	"os"
 	"path/filepath"
 	"regexp"
@@ -256,7 +257,7 @@ func verify(c *Ctx, sel func(ct *Contract) bool, want func(name string, tags []s
 			}
 		}
 	}
-	for w := 0; w < 8; w++ {
+	for w := 0; w < envInt("VERIF_WORKERS", 5); w++ {
 		wg.Add(1)
 		go func() {
 			defer wg.Done()
@@ -359,6 +360,21 @@ func verify(c *Ctx, sel func(ct *Contract) bool, want func(name string, tags []s
 			solver.SolverS[k] += v
 		}
 		solver.mu.Unlock()
+	}
+	// struct shapes (type-level obligations, no solver)
+	for _, sh := range c.Specs.Shapes {
+		name := "shape:" + sh.Type
+		if want != nil && !want(name, sh.Tags) {
+			continue
+		}
+		r := &OblResult{Name: name, Tags: sh.Tags, Paths: 1, Status: "discharged", Solver: "go/types", Src: strings.TrimSpace(strings.TrimPrefix(strings.TrimSpace(sh.Src), "//@")), Where: fmt.Sprintf("%s:%d", strings.TrimPrefix(sh.File, c.Repo+"/"), sh.Line)}
+		if why := checkShape(c, sh); why != "" {
+			r.Status = "failed"
+			r.Detail = "struct differs from the pinned shape: " + why
+			r.Model = why
+			r.Query = "; type-level obligation: " + r.Src + "\n; " + why + "\n"
+		}
+		results = append(results, r)
 	}
 	rr.Results = results
 	rr.SolveS = time.Since(t1).Seconds()
@@ -518,6 +534,7 @@ func cmdVerify(args []string) {
 	re := regexp.MustCompile(*fre)
 	reo := regexp.MustCompile(*ore)
 	solver := NewSolver(filepath.Join(*vdir, ".work"), filepath.Join(*vdir, ".cache"), *timeout, envInt("VERIF_SEED", 0))
+	solver.RetryFactor = 4
 	rr := verify(c, func(ct *Contract) bool {
 		return re.MatchString(shortKey(c, ct.Key)) && (*prop == "" || contractMentions(ct, *prop))
 	}, func(name string, tags []string) bool {
@@ -585,4 +602,31 @@ func reSym(s string) *regexp.Regexp {
 	r := regexp.MustCompile(`[( ]` + regexp.QuoteMeta(s) + `[) ]`)
 	symRe[s] = r
 	return r
+}
+
+// checkShape compares the struct type named by sh with the pinned field list; "" when they agree.
+func checkShape(c *Ctx, sh *Shape) string {
+	pkg := c.TPkgs[sh.PkgPath]
+	if pkg == nil {
+		return "package " + sh.PkgPath + " not loaded"
+	}
+	obj := pkg.Scope().Lookup(sh.Type)
+	if obj == nil {
+		return "type " + sh.Type + " does not exist"
+	}
+	st, ok := obj.Type().Underlying().(*types.Struct)
+	if !ok {
+		return sh.Type + " is not a struct"
+	}
+	if st.NumFields() != len(sh.Fields) {
+		return fmt.Sprintf("%d fields, pinned %d", st.NumFields(), len(sh.Fields))
+	}
+	for i, f := range sh.Fields {
+		g := st.Field(i)
+		ty := types.TypeString(g.Type(), func(p *types.Package) string { return p.Name() })
+		if g.Name() != f[0] || ty != f[1] {
+			return fmt.Sprintf("field %d is %q %s, pinned %q %s", i, g.Name(), ty, f[0], f[1])
+		}
+	}
+	return ""
 }
